@@ -248,7 +248,9 @@ def runJudgeDe : P String := do
             (match Spec.observe S root v with
               | none => "ok"
               | some e =>
-                if isAny && left ≠ rest.length then "VIOLATION Ok but a different number of bytes consumed than the encoding holds"
+                -- (every target: `C12_typed_consumes_all` - a typed read that succeeds has consumed
+                -- exactly the datum)
+                if left ≠ rest.length then "VIOLATION Ok but a different number of bytes consumed than the encoding holds"
                 else if !consistentOut o e then "VIOLATION Ok with a value that differs from the encoded one"
                 else "ok")
       | .error _ =>
